@@ -3,6 +3,7 @@ values, reader correspondence (cdedb::read through `vh cderead` against Json.rea
 import file is checked in Coq (Cde.import_okb, write model)."""
 import copy
 import json
+import re
 import os
 import random
 import struct
@@ -366,8 +367,18 @@ def e2e_cases(ctx, seed, count, binpath, opts_fn=None, dense_assign=True, thread
                      "lists": lists, "problem": problem, "panicked": "panicked" in run["stderr"], "rooms": rinfo})
         if isinstance(dfile, dict):
             # the whole document (CorrDoc.check_cde_doc)
-            dtexts.append("(%s, %s, %s, %s, %s, %s, %s)" % (coq(ex["export"]), g_opts(track, ic, ia), g_field(ffname), g_field(ofname),
-                                                           g_rooms_arg(rinfo["rooms_arg"] if rinfo else None), g_field(rinfo["field"] if rinfo else None), coq(dfile)))
+            # the two quality figures printed in the tail of the summary (Display of the binary32 values), as bit patterns
+            g_figs = "None"
+            mq = re.search(r"with solution quality (\S+) / overall assignment quality (\S+)\. Based on", str(dfile.get("summary", "")))
+            if mq:
+                try:
+                    g_figs = "(Some ((%d)%%Z, (%d)%%Z))" % tuple(struct.unpack("<I", struct.pack("<f", float(x)))[0] for x in mq.groups())
+                except (ValueError, OverflowError):
+                    g_figs = "(Some ((-1)%Z, (-1)%Z))"
+            else:
+                g_figs = "(Some ((-2)%Z, (-2)%Z))"
+            dtexts.append("(%s, %s, %s, %s, %s, %s, %s, %s)" % (coq(ex["export"]), g_opts(track, ic, ia), g_field(ffname), g_field(ofname),
+                                                               g_rooms_arg(rinfo["rooms_arg"] if rinfo else None), g_field(rinfo["field"] if rinfo else None), coq(dfile), g_figs))
             didx.append(len(recs) - 1)
         if rinfo is not None and lists is not None and isinstance(dfile, dict):
             # the possible-rooms field as written: course id -> string (None when some course carries no such field)
